@@ -19,13 +19,13 @@ def slicePre (cfg : Config) (m : MatcherI) (σ : Script) (slice_ : Bytes) : Core
     else (st, .ok ())
 
 /-- the closing `finish` call of every strategy's `run` -/
-def finishRun (σ : Script) (x : Core × Res Unit) : Run :=
+def finishRun (cfg : Config) (σ : Script) (x : Core × Res Unit) : Run :=
   match x with
   | (st, .err) => ⟨st, .err⟩
-  | (st, .ok ()) => ⟨(finish σ st (byteCount st) st.binaryByteOffset).1, (finish σ st (byteCount st) st.binaryByteOffset).2⟩
+  | (st, .ok ()) => ⟨(finish σ st (byteCount cfg st) st.binaryByteOffset).1, (finish σ st (byteCount cfg st) st.binaryByteOffset).2⟩
 
 theorem sliceByLine_eq (cfg : Config) (m : MatcherI) (σ : Script) (slice_ : Bytes) :
-    sliceByLine cfg m σ slice_ = finishRun σ (slicePre cfg m σ slice_) := by
+    sliceByLine cfg m σ slice_ = finishRun cfg σ (slicePre cfg m σ slice_) := by
   unfold sliceByLine slicePre finishRun
   dsimp only
   rcases begin σ (Core.new cfg true) with ⟨st, b | _⟩
@@ -64,23 +64,23 @@ theorem finish_eq (σ : Script) (st : Core) (bc : Nat) (bo : Option Nat) :
 
 /-- **Stopping / failing mid-stream yields a prefix** — generic in what happens before `finish`.
 `x1` / `x2` are the outcomes of the pre-`finish` part under `σ` / under the all-continue sink. -/
-theorem run_prefix {σ : Script} {k : Nat} (hk : FirstStop σ k) {st0 : Core} (h0 : st0.events = [])
+theorem run_prefix (cfg : Config) {σ : Script} {k : Nat} (hk : FirstStop σ k) {st0 : Core} (h0 : st0.events = [])
     {x1 x2 : Core × Res Unit} (hx : WB σ k () st0 x1 x2) :
-    (finishRun allCont x2).result = .ok () ∧
-    (k + 1 < (finishRun allCont x2).events.length →
-      (∃ bc bo, (finishRun σ x1).events = (finishRun allCont x2).events.take (k + 1) ++
+    (finishRun cfg allCont x2).result = .ok () ∧
+    (k + 1 < (finishRun cfg allCont x2).events.length →
+      (∃ bc bo, (finishRun cfg σ x1).events = (finishRun cfg allCont x2).events.take (k + 1) ++
           (if σ k = .stop then [Event.finish bc bo] else [])) ∧
-      ((finishRun σ x1).result = .err ↔ (σ k = .err ∨ (σ k = .stop ∧ σ (k + 1) = .err)))) ∧
-    ((finishRun allCont x2).events.length ≤ k + 1 →
-      (finishRun σ x1).events = (finishRun allCont x2).events ∧
-      ((finishRun σ x1).result = .err ↔ (k + 1 = (finishRun allCont x2).events.length ∧ σ k = .err))) := by
+      ((finishRun cfg σ x1).result = .err ↔ (σ k = .err ∨ (σ k = .stop ∧ σ (k + 1) = .err)))) ∧
+    ((finishRun cfg allCont x2).events.length ≤ k + 1 →
+      (finishRun cfg σ x1).events = (finishRun cfg allCont x2).events ∧
+      ((finishRun cfg σ x1).result = .err ↔ (k + 1 = (finishRun cfg allCont x2).events.length ∧ σ k = .err))) := by
   obtain ⟨_, hsim, hne⟩ := hx
   have hsim := hsim (by rw [h0]; exact Nat.zero_le _)
   rcases x2 with ⟨s2, u | _⟩
   · cases u
-    have hE : (finishRun allCont (s2, Res.ok ())).events = s2.events ++ [Event.finish (byteCount s2) s2.binaryByteOffset] := by
+    have hE : (finishRun cfg allCont (s2, Res.ok ())).events = s2.events ++ [Event.finish (byteCount cfg s2) s2.binaryByteOffset] := by
       simp [finishRun, finish_eq, Run.events]
-    have hR0 : (finishRun allCont (s2, Res.ok ())).result = .ok () := by
+    have hR0 : (finishRun cfg allCont (s2, Res.ok ())).result = .ok () := by
       simp [finishRun, finish_eq, allCont]
     refine ⟨hR0, ?_, ?_⟩
     · intro hlt
@@ -89,7 +89,7 @@ theorem run_prefix {σ : Script} {k : Nat} (hk : FirstStop σ k) {st0 : Core} (h
       · simp at hlt hlen; omega
       · rcases x1 with ⟨s1, r1⟩
         simp only at hlen hpre hres
-        have htake : s1.events = (s2.events ++ [Event.finish (byteCount s2) s2.binaryByteOffset]).take (k + 1) := by
+        have htake : s1.events = (s2.events ++ [Event.finish (byteCount cfg s2) s2.binaryByteOffset]).take (k + 1) := by
           have h1 := List.prefix_iff_eq_take.mp hpre
           rw [hlen] at h1
           have hle : k + 1 ≤ s2.events.length := by rw [← hlen]; exact hpre.length_le
@@ -98,7 +98,7 @@ theorem run_prefix {σ : Script} {k : Nat} (hk : FirstStop σ k) {st0 : Core} (h
         cases hσ : σ k with
         | cont => exact absurd hσ hk.at_
         | stop =>
-          refine ⟨⟨byteCount s1, s1.binaryByteOffset, ?_⟩, ?_⟩
+          refine ⟨⟨byteCount cfg s1, s1.binaryByteOffset, ?_⟩, ?_⟩
           · simp [finishRun, haltRes, finish_eq, Run.events, htake]
           · simp [finishRun, haltRes, finish_eq, hlen]
         | err =>
